@@ -1459,6 +1459,53 @@ def shared_c11(vd, stats, tier):
     return {"shared_subpipeline_pairs": n, "states_shared": tr.states}
 
 
+def pipelines_c12(vd, stats, tier):
+    """C12 over whole pipelines: behaviours of Exec.tla (every operator kind, limits incl. an explicit 0, reversals, joins,
+    concats, windows, map_columns ...) are printed four ways, rebuilt with eval_da_ops and must compare equal to the original
+    and evaluate to the same Pandas result"""
+    from data_algebra.expr_parse_fn import eval_da_ops
+    tr = rc.TlcRun()
+    quick = tier == "quick"
+    results = [rc.run_exec(tr, "random pipelines of 3 calls over 2 tables of <= 2 rows (printing round trip) seed=%d" % common.seed(),
+                           simulate={"num": 1500 if quick else 6000, "seed": common.seed()}, emit=True, backends=True, level=2, samplek=6,
+                           rows=2, steps=3, **SIMT),
+               rc.run_exec(tr, "every order_rows / column step over all tables, no rows (limits 0 | 1 | 2 | explicit 0, reversals)",
+                           emit=True, backends=True, fams=["order", "cols"], rows=0, steps=1, level=2, **T1)]
+    cases = rc.collect_cases(results, limit=(1500 if quick else 8000), tier=tier)
+    be = relreplay._backends()
+    n = 0
+    for case in cases:
+        if not all(h["ok"] for h in case["hist"]):
+            continue
+        try:
+            ops = relcase.build(case).final
+        except Exception:  # noqa: BLE001
+            continue
+        frames = be.frames(case)
+        try:
+            base = abs_table(ops.eval(frames))
+        except Exception:  # noqa: BLE001
+            base = None
+        n += 1
+        for name, f in (("to_python", lambda: ops.to_python(pretty=False)), ("to_python_pretty", lambda: ops.to_python(pretty=True)),
+                        ("repr", lambda: repr(ops)), ("str", lambda: str(ops))):
+            try:
+                src = f()
+                ops2 = eval_da_ops(src, data_model_map={})
+                same = (ops2 == ops) and (ops == ops2)
+                why = "the rebuilt pipeline compares unequal"
+                if same and base is not None:
+                    same, why = same_table(abs_table(ops2.eval(frames)), base, ordered=case["hist"][-1]["ordered"])
+            except Exception as ex:  # noqa: BLE001
+                same, why, src = False, "raised %s: %s" % (type(ex).__name__, str(ex)[:300]), None
+            stats["pipeline_rebuilds"] += 1
+            if not same:
+                vd.violation({"kind": "pipeline-print", "form": name, "why": why, "printed": src, "prog": case["prog"], "pipeline": str(ops)},
+                             tag="pipeline-print:%s:%s" % (name, case["prog"][-1][0]))
+                break
+    return {"pipelines_printed_and_rebuilt": n, "states_pipelines": tr.states, "tlc_runs_pipelines": tr.runs}
+
+
 def check_C11(tier, replay=None):
     from . import rec_props
 
